@@ -426,6 +426,48 @@ harness('h_builder::c09_k_proto_igmp', ['C09'], 'bounded (payload <= 5 B; helper
 harness('h_builder::c10_size_arp', ['C10'], 'bounded (address lengths 0..=8)', 'size() of ethernet2|+VLAN(s)|linux_sll + ARP == 14/16 + 4*vlans + 8+2h+2p', tier='quick', bound='addr len <= 8', timeout=600)
 harness('h_builder::c10_limits_eth_ipv4_udp', ['C10', 'C14'], 'complete for n in limit+1..=limit+2 (error side only)', 'eth+ipv4+udp payload above 65535-20-8: Err(PayloadLen) with real limit, nothing above L2 emitted, size() exact', tier='quick', bound='error side only', timeout=1800)
 
+# ---- C10 second group (agent k-builder2): slim builder harnesses. The IPv6 ones run with `--output-format old` (parsed by runner.parse_kani_old):
+# in the regular format kani-driver needs > 10 GB for the traces of the reachability checks over the 8 KiB Ipv6Extensions; old format: 30-50 s, 1-2 GB
+_OLD = ['--output-format', 'old']
+harness('h_builder2::c10_optsize_ipv4_udp_write', ['C10'], 'bounded (payload <= 4 B; all option lengths 0,4..40; accumulators stubbed to no-ops)', 'ip(IpHeaders::Ipv4 with options)+udp: size(n) == 20+4w+8+n == bytes handed to write()', tier='quick', bound='payload <= 4 B', timeout=400, heavy=False)
+harness('h_builder2::c10_optsize_ipv4_udp_slice', ['C10'], 'bounded (payload <= 4 B; all option lengths; accumulators stubbed to no-ops)', 'same config through write_to_slice: exact-size slice -> Ok(len), one byte less -> Err(Space(len))', tier='quick', bound='payload <= 4 B', timeout=500, heavy=False)
+harness('h_builder2::c10_optsize_ipv6_udp_write', ['C10'], 'bounded (payload <= 4 B; IPv6 with a fragment header; accumulators stubbed to no-ops)', 'ip(IpHeaders::Ipv6 with fragment header)+udp: size(n) == 40+8+8+n == bytes handed to write()', tier='quick', bound='payload <= 4 B', args=_OLD, timeout=400, heavy=False)
+harness('h_builder2::c10_optsize_ipv6_udp_slice', ['C10'], 'bounded (payload <= 4 B; IPv6 with a fragment header)', 'same through write_to_slice: exact-size slice Ok, one byte less Err(Space(len))', tier='quick', bound='payload <= 4 B', args=_OLD, timeout=400, heavy=False)
+harness('h_builder2::c10_lim6_udp', ['C10', 'C14'], 'complete for n in limit-1..=limit+2 (concrete addresses; accumulators stubbed to no-ops, payload never read, counting writer)', 'ipv6+udp at 65535-8: n<=limit Ok with exactly 48+n bytes == size(n); n>limit Err(PayloadLen) with the real limit and nothing emitted', tier='quick', bound='4 lengths around the limit', args=_OLD, timeout=400, heavy=False)
+harness('h_builder2::c10_lim6_frag_udp', ['C10', 'C14'], 'complete for n in limit-1..=limit+2 (IPv6 + fragment header + UDP)', 'limit 65535-8-8: extension header length counted in the IPv6 payload length limit', tier='quick', bound='4 lengths around the limit', args=_OLD, timeout=400, heavy=False)
+harness('h_builder2::c10_lim6_tcp', ['C10', 'C14'], 'complete for n in limit-1..=limit+2 (IPv6 + TCP)', 'limit 65535-20: Ok side exact byte count, Err side PayloadLen with the real limit', tier='quick', bound='4 lengths around the limit', args=_OLD, timeout=400, heavy=False)
+harness('h_builder2::c10_lim6_raw', ['C10', 'C14'], 'complete for n in limit-1..=limit+2 (IPv6 raw payload)', 'limit 65535', tier='quick', bound='4 lengths around the limit', args=_OLD, timeout=400, heavy=False)
+harness('h_builder2::c10_fields_eth_ipv4_udp', ['C10'], 'bounded (payload <= 2 B; accumulators = ideal word sum)', 'eth+ipv4+udp bytes at RFC offsets: MACs, ether type 0x0800, total_len, protocol 17, IPv4 header checksum, UDP length + checksum vs oracle, len == size(n)', tier='quick', bound='payload <= 2 B', timeout=900, heavy=False)
+harness('h_builder2::c10_fields_vlan_ipv4_tcp', ['C10'], 'bounded (payload <= 2 B; single|double VLAN, SYN or not; ideal word sum)', 'eth+vlan(s)+ipv4+tcp: every tag announced by a VLAN TPID, TCI = id, last tag type 0x0800, protocol 6, total_len, TCP fields + checksum vs oracle', tier='thorough', bound='payload <= 2 B', timeout=1800, heavy=True)
+harness('h_builder2::c10_fields_sll_ipv4_udp', ['C10'], 'bounded (payload <= 2 B; ideal word sum)', 'linux_sll+ipv4+udp: SLL packet type/ARPHRD 1/addr, protocol 0x0800, then IPv4/UDP fields + checksums vs oracle', tier='quick', bound='payload <= 2 B', timeout=1000, heavy=False)
+harness('h_builder2::c10_fields_ipv4_icmpv4_echo', ['C10'], 'bounded (payload <= 2 B; ideal word sum)', 'ipv4+icmpv4 echo request/reply: protocol 1, total_len, header checksum, type 8/0 code 0 id seq, ICMP checksum vs oracle', tier='quick', bound='payload <= 2 B', timeout=900, heavy=False)
+harness('h_builder2::c10_err_icmpv6_in_ipv4', ['C10'], 'bounded (payload <= 2 B; with/without ethernet2; write and write_to_slice)', 'ICMPv6 over IPv4 -> Err(Icmpv6InIpv4) from write and write_to_slice, at most link+IPv4 header emitted', tier='quick', bound='payload <= 2 B', timeout=600, heavy=False)
+# size() == bytes written for UDP / TCP over every link layer (first-session drafts of h_builder.rs, measured 340 / 430 s in the second session)
+harness('h_builder::c10_size_udp', ['C10'], 'bounded (payload <= 5 B)', 'size() == bytes written, eth|vlan|sll x ipv4|ipv6 + udp', tier='thorough', bound='payload <= 5 B', timeout=1500, heavy=True)
+harness('h_builder::c10_size_tcp', ['C10'], 'bounded (payload <= 5 B)', 'size() == bytes written, + tcp with options', tier='thorough', bound='payload <= 5 B', timeout=1500, heavy=True)
+
+# ---- link-level doors of the four whole-packet decoder families (agent k-link; reference walk from 802.1Q / 802.1AE inside h_link.rs). The harnesses
+# assume that no ether type position of the chain names IPv4 / IPv6 / ARP and replace the IP / ARP decoders by panicking stubs (checked, not assumed:
+# a dispatch to one of them fails the harness), so no IP parsing is pulled in. Run with `--output-format old` (see h_builder2 above).
+harness('h_link::c07_link_ref_sliced_vlan', ['C03', 'C07'], 'bounded (all inputs <= 24 B behind ether type 0x8100, no IP/ARP ether type in the chain)', 'SlicedPacket::from_ether_type == reference VLAN/MACsec walk: tags, ranges, payload, exact LenError fields', tier='quick', bound='<= 24 B', args=_OLD, timeout=600, heavy=False)
+harness('h_link::c07_link_ref_sliced_macsec', ['C03', 'C07'], 'bounded (all inputs <= 28 B behind ether type 0x88E5, no IP/ARP ether type in the chain)', 'as above, MACsec first (SCI, short length, modified payload, nested tags)', tier='quick', bound='<= 28 B', args=_OLD, timeout=600, heavy=False)
+harness('h_link::c05_link_ref_lax_sliced_vlan', ['C05'], 'bounded (<= 24 B behind 0x8100, no IP/ARP)', 'LaxSlicedPacket::from_ether_type == lax reference walk: layers in front of the fault, stop error + layer, incomplete iff short length exceeds data (len_source Slice)', tier='quick', bound='<= 24 B', args=_OLD, timeout=600, heavy=False)
+harness('h_link::c05_link_ref_lax_sliced_macsec', ['C05'], 'bounded (<= 28 B behind 0x88E5, no IP/ARP)', 'as above, MACsec first', tier='quick', bound='<= 28 B', args=_OLD, timeout=600, heavy=False)
+harness('h_link::c05_link_strict_vs_lax_vlan', ['C05'], 'bounded (<= 24 B behind 0x8100, no IP/ARP)', 'SlicedPacket vs LaxSlicedPacket directly: Ok => identical, no stop error, nothing incomplete; Err => same error on its layer, or incomplete MACsec payload up to the end of the enclosing data', tier='quick', bound='<= 24 B', args=_OLD, timeout=900, heavy=False)
+harness('h_link::c05_link_strict_vs_lax_macsec', ['C05'], 'bounded (<= 28 B behind 0x88E5, no IP/ARP)', 'as above, MACsec first', tier='quick', bound='<= 28 B', args=_OLD, timeout=900, heavy=False)
+harness('h_link::c04_link_headers_vs_sliced_vlan', ['C04'], 'bounded (<= 20 B behind 0x8100, no IP/ARP)', 'PacketHeaders vs SlicedPacket from_ether_type: verdict, error value, link_exts == to_header(), payload ether type + byte range', tier='quick', bound='<= 20 B', args=_OLD, timeout=900, heavy=False)
+harness('h_link::c04_link_headers_vs_sliced_macsec', ['C04', 'C07'], 'bounded (<= 24 B behind 0x88E5, no IP/ARP)', 'as above, MACsec first (D4 regression: VLAN error offset behind a short-length-trimmed MACsec payload)', tier='quick', bound='<= 24 B', args=_OLD, timeout=900, heavy=False)
+harness('h_link::c04_link_lax_headers_vs_lax_sliced_vlan', ['C04'], 'bounded (<= 20 B behind 0x8100, no IP/ARP)', 'LaxPacketHeaders vs LaxSlicedPacket from_ether_type: stop error value + layer, link_exts, payload range, incomplete', tier='quick', bound='<= 20 B', args=_OLD, timeout=900, heavy=False)
+harness('h_link::c04_link_lax_headers_vs_lax_sliced_macsec', ['C04', 'C07'], 'bounded (<= 24 B behind 0x88E5, no IP/ARP)', 'as above, MACsec first', tier='quick', bound='<= 24 B', args=_OLD, timeout=900, heavy=False)
+harness('h_link::c06_link_ethernet_door_sliced', ['C06', 'C07'], 'bounded (frames <= 34 B, ether type in {0x8100,0x88A8,0x9100,0x88E5}, no IP/ARP; all inputs < 14 B)', 'SlicedPacket::from_ethernet == from_ether_type(frame[12..14], frame[14..]) with all offsets +14', tier='quick', bound='<= 34 B', args=_OLD, timeout=900, heavy=False)
+harness('h_link::c06_link_ethernet_door_lax_sliced', ['C06'], 'bounded (as c06_link_ethernet_door_sliced)', 'LaxSlicedPacket::from_ethernet vs from_ether_type, offsets +14', tier='quick', bound='<= 34 B', args=_OLD, timeout=900, heavy=False)
+harness('h_link::c06_link_sll_door_sliced', ['C06', 'C03'], 'bounded (SLL frames <= 36 B, ARPHRD Ethernet, protocol type a link-ext type, symbolic packet type; all inputs < 16 B)', 'SlicedPacket::from_linux_sll == from_ether_type(frame[14..16], frame[16..]) with offsets +16; invalid packet type reported with its value', tier='quick', bound='<= 36 B', args=_OLD, timeout=900, heavy=False)
+harness('h_link::c05_link_arp_slices_behind_vlan', ['C03', 'C05', 'C07'], 'bounded (0x8100 -> one VLAN tag -> ARP hlen 6/plen 4, inputs 4..=34 B)', 'SlicedPacket/LaxSlicedPacket: 28-byte ARP at offset 4, or ARP length error at offset 4 with true byte counts', tier='quick', bound='4..=34 B', args=_OLD, timeout=300, heavy=False)
+harness('h_link::c05_link_arp_slices_behind_macsec', ['C05', 'C07'], 'bounded (0x88E5 -> SecTAG no SCI, unmodified, satisfiable short length -> ARP hlen 6/plen 4, inputs 8..=38 B)', 'same behind MACsec; a cut ARP packet may name the slice or the MACsec short length that really cut it', tier='quick', bound='8..=38 B', args=_OLD, timeout=300, heavy=False)
+harness('h_link::c06_link_arp_ethernet_door_slices', ['C06'], 'bounded (Ethernet II -> 0x8100 -> ARP hlen 6/plen 4, frames 18..=46 B)', 'both slice families: Ethernet door ARP at offset 18 / error == ether type door shifted by 14', tier='quick', bound='18..=46 B', args=_OLD, timeout=600, heavy=False)
+harness('h_link::c04_link_arp_headers_behind_vlan', ['C04'], 'bounded (0x8100 -> VLAN -> ARP hlen 6/plen 4, inputs 4..=34 B)', 'PacketHeaders vs SlicedPacket: same verdict, same error value, ARP struct == the bytes, payload Empty', tier='quick', bound='4..=34 B', args=_OLD, timeout=600, heavy=False)
+harness('h_link::c05_link_arp_lax_headers_behind_vlan', ['C05', 'C04'], 'bounded (0x8100 -> VLAN -> ARP hlen 6/plen 4, inputs 4..=34 B)', 'LaxPacketHeaders vs LaxSlicedPacket: same stop error; an accepted ARP packet leaves the payload PacketHeaders returns (Empty): defect D15, repaired', tier='quick', bound='4..=34 B', args=_OLD, timeout=600, heavy=False)
+
 # ---- C09 at the 64 KiB boundary (paired harnesses for the unbounded Verus proofs; oracle h_builder::ref_*) ---------------------
 harness('h_big::c09_k_big_tcp_slice_ipv6', ['C09'], 'bounded (one length: 65556 B segment, zero body; symbolic addresses + header; add_slice stubbed by zero-tail ideal accumulator)', 'TcpSlice::calc_checksum_ipv6 == RFC 9293/8200 checksum with the 32 bit length in the pseudo header', tier='thorough', bound='1 length (65556 B)', timeout=1800)
 harness('h_big::c09_k_big_tcp_header_slice_ipv6', ['C09'], 'bounded (one length: 20 B header + 65536 B zero payload)', 'TcpHeaderSlice::calc_checksum_ipv6_raw, same', tier='quick', bound='1 length', timeout=600)
